@@ -33,6 +33,7 @@ type Profile struct {
 	CacheW     int `json:"cache_w,omitempty"`
 	TamperW    int `json:"tamper_w,omitempty"`
 	RootsW     int `json:"roots_w,omitempty"`
+	SlowW      int `json:"slow_w,omitempty"`
 
 	Instances       int  `json:"instances"`
 	SeparateStorage bool `json:"separate_storage,omitempty"`
@@ -115,6 +116,9 @@ func MakeProfile(prop string, seed uint64, tier string) *Profile {
 		if r.Chance(1, 4) {
 			p.StopW = 2
 		}
+		if r.Chance(1, 4) {
+			p.SlowW = 3
+		}
 	}
 	switch prop {
 	case "C03":
@@ -137,7 +141,30 @@ func MakeProfile(prop string, seed uint64, tier string) *Profile {
 		p.DupPct = []int{30, 50, 70}[r.Intn(3)]
 		if faulty {
 			p.CacheW = 3
+			if p.CrashW == 0 {
+				p.CrashW = 3
+				p.MaxCrashes = 2 + r.Intn(3)
+			}
 		}
+	case "C02":
+		p.DupPct = []int{10, 30, 50}[r.Intn(3)]
+	case "C06":
+		p.Instances = 2 + r.Intn(2)
+		p.Items = 10 + r.Intn(30)
+		p.StallW = 0
+		p.SlowW = []int{0, 3, 8}[r.Intn(3)]
+		if r.Chance(1, 3) {
+			p.CrashW = 3
+			p.MaxCrashes = 1 + r.Intn(3)
+		}
+	case "C08":
+		p.TamperW = []int{2, 5}[r.Intn(2)]
+		p.Tag = "tamper"
+		if p.CrashW == 0 {
+			p.CrashW = 4
+			p.MaxCrashes = 2 + r.Intn(3)
+		}
+		p.PoolSize = []int{0, 1, 2, 3}[r.Intn(4)]
 	}
 	return p
 }
